@@ -94,7 +94,14 @@ fn verif_replay_c09_query() {
                     }
                 }
                 _ => {
-                    q.on_success(&id((r.next() % 48) as u8 + 20), vec![]);
+                    // an answer from an arbitrary id: unsolicited unless it happens to be a peer in flight
+                    let p = id((r.next() % 48) as u8 + 20);
+                    let was_in_flight = in_flight.contains(&p);
+                    q.on_success(&p, vec![]);
+                    if was_in_flight && !finished {
+                        in_flight.retain(|x| *x != p);
+                        answered.push(p);
+                    }
                 }
             }
             let waiting = q.closest_peers.values().filter(|p| matches!(p.state, QueryPeerState::Waiting(_))).count();
